@@ -14,6 +14,7 @@
 extern crate iceoryx2_bb_loggers;
 
 mod conc;
+mod lsched;
 mod r#gen;
 mod world;
 
